@@ -5,6 +5,14 @@ import os
 VERIF = os.path.dirname(os.path.dirname(os.path.abspath(__file__)))
 
 CHECKS = {
+    "C02": dict(engine="calltree", level="exploration", design="4/C02, 3.5",
+                technique="deterministic simulation: seeded call/forget/restart/evict/clock-jump histories over scripted functions vs. a call-ledger reference model, on three backends",
+                text="Scripted functions return values from the documented result-type domain (54 catalogue kinds and nestings, incl. partitions) or raise (built-in, custom, two-argument constructor, function-local class, not-to-be-memoized). Histories of calls (normal, ignore_result, force_local), repeats, forget, forget_all, memento queries, restarts (fresh process over the same store), cache evictions and clock jumps run on filesystem, filesystem+cache (4 KiB - 4 MiB) and memory backends. The ledger demands: the body runs exactly once per distinct call and never again until forgotten; every later call returns an equal value of the same type (also after restart / eviction); the first call's value is usable; exceptions are replayed as the same class when rebuildable from a message, else as the memoized-exception type, with the original message; not-to-be-memoized exceptions are raised and executed every time and never recorded; the recorded result type matches.",
+                note="Sampling. Function bodies are scripted through the builtins side channel. Memoized exception under ignore_result is not asserted (docstring and code disagree)."),
+    "C17": dict(engine="calltree", level="exploration", design="4/C17, 3.5",
+                technique="deterministic simulation: seeded call/restart/cache-flush histories over partition merge chains vs. an overlay reference model",
+                text="Chains p0..pk (k<=4) return in-memory or on-disk partitions with overlapping string keys and supported values (incl. nested partitions); each level may declare the result of the level below as merge parent. Histories of calls at arbitrary levels, restarts and cache flushes force the parent to be just computed, read back from the memory cache, or read back from disk. Every returned partition must list exactly the overlay key set, list its own keys, return for each key the expected value, load single keys from a freshly obtained object, and be stored (memento present; no body runs for a stored call, also after restart).",
+                note="Sampling. The merge parent is obtained by calling the parent function in the child's body (the documented usage)."),
     "C03": dict(engine="evo", level="exploration", design="4/C03, 3.1",
                 technique="deterministic simulation: several fresh interpreters ('nodes') per generated program with seeded PYTHONHASHSEED, definition/import/first-query order permutations, sharing one store",
                 text="For batches of generated programs 3 (quick) or 4 (thorough) fresh interpreters are started, each with its own PYTHONHASHSEED drawn from the PRNG, its own permutation of definition order inside every module, of module import order and of the order in which version() is first asked. The function -> version map must be identical on all nodes; node 1 runs a call workload against an empty store and node 2 the same workload against the same store, where the side channel must record zero body executions and all values must equal node 1's.",
